@@ -190,6 +190,7 @@ class FunctionParser(BaseParser):
         # if a param is not defaulted or annotated, it rule is Rule(require=True)
 
         self.exclude_indexes = set()
+        self.excluded_defaults = {}  # positional index -> Python default of an excluded (private) parameter
         self.parameters: Iterable[Tuple[str, inspect.Parameter]] = parameters
         self.kw_var = None  # only for function, **kwargs
         self.pos_var_index = None
@@ -394,6 +395,8 @@ class FunctionParser(BaseParser):
                 exclude_vars.add(name)
                 if param.kind in (param.POSITIONAL_ONLY, param.POSITIONAL_OR_KEYWORD):
                     exclude_indexes.add(i)
+                    if param.default is not param.empty:
+                        self.excluded_defaults[i] = param.default
                 continue
             if param.kind in (param.VAR_KEYWORD, param.VAR_POSITIONAL):
                 continue
@@ -654,6 +657,10 @@ class FunctionParser(BaseParser):
             if not unprovided(default):
                 # this position is definitely after parsed_args
                 # because required args is always (we enforce check) ahead of default args
+                while len(parsed_args) < index and len(parsed_args) in self.excluded_defaults:
+                    # an omitted private parameter in front keeps its own default,
+                    # otherwise this default would slide into its position
+                    parsed_args.append(self.excluded_defaults[len(parsed_args)])
                 parsed_args.append(default)
             parsed_keys.append(field.attname)  # need to append parsed as well
             # positional only field is excluded no matter the arg is provided or not
